@@ -349,3 +349,8 @@ func VNewAwareness(max int) *VAwareness                          { return &VAwar
 func (v *VAwareness) ApplyDelta(d int)                           { v.a.ApplyDelta(d) }
 func (v *VAwareness) GetHealthScore() int                        { return v.a.GetHealthScore() }
 func (v *VAwareness) ScaleTimeout(d time.Duration) time.Duration { return v.a.ScaleTimeout(d) }
+
+// VSetSeqNo presets the probe sequence-number counter (the next number handed
+// out is v+1), so that the harness can drive the counter across its 2^32
+// wrap-around without four billion probes.
+func (m *Memberlist) VSetSeqNo(v uint32) { atomic.StoreUint32(&m.sequenceNum, v) }
